@@ -1,6 +1,7 @@
 package props
 
 import (
+	"errors"
 	"encoding/binary"
 	"encoding/json"
 	"fmt"
@@ -189,6 +190,28 @@ func failHard(err error) {
 	os.Exit(1)
 }
 
+// Observations are violations noticed by harness code that has no error path
+// of its own to the check (for example inside a read program, where errors are
+// ordinary data): safeCheck fails the case if any was recorded.
+var (
+	obsMu        sync.Mutex
+	observations []string
+)
+
+func observe(format string, a ...interface{}) {
+	obsMu.Lock()
+	observations = append(observations, fmt.Sprintf(format, a...))
+	obsMu.Unlock()
+}
+
+func takeObservations() []string {
+	obsMu.Lock()
+	defer obsMu.Unlock()
+	out := observations
+	observations = nil
+	return out
+}
+
 // safeCheck runs check and converts a panic into an error.  A watchdog turns a
 // case that never returns into a recorded failure and ends the process.
 func safeCheck[C any](check func(C, *Obs) error, c C, o *Obs) (err error) {
@@ -199,9 +222,13 @@ func safeCheck[C any](check func(C, *Obs) error, c C, o *Obs) (err error) {
 		os.Exit(1)
 	})
 	defer wd.Stop()
+	takeObservations()
 	defer func() {
 		if r := recover(); r != nil {
 			err = fmt.Errorf("PANIC: %v\n%s", r, debug.Stack())
+		}
+		if obs := takeObservations(); err == nil && len(obs) > 0 {
+			err = errors.New(obs[0])
 		}
 	}()
 	return check(c, o)
